@@ -139,7 +139,7 @@ def argEval (env : MEnv) (target : Val) : Nat → St → Memo → Val → St × 
 /-- what the user passes as `val` -/
 inductive UVal where
   | lit (v : Val)              -- a literal: a scalar, an object, a (nested) container, a T-expression cell
-  | path (steps : List Step)   -- a T-expression / `Spec(path)`
+  | vs (v : ValSpec)           -- a T-expression / `Spec(path)` (`.path`), `Val(x)` (`.val`: the value itself, never rebuilt)
   deriving Repr
 
 /-- enough fuel for `argEval` on a heap of `n` cells (between two visits of the same memo-less cell
@@ -168,7 +168,7 @@ def assignLit (env : MEnv) (sroot : Bool) (sref : Val) (missing : Missing) (fuel
 def assignFrom (env : MEnv) (sroot : Bool) (sref : Val) (missing : Missing) (fuel : Nat) (st : St)
     (target : Val) (orig : List Step) : UVal → St × Except MErr Val
   | .lit v => assignLitFrom env sroot sref missing fuel st target orig v
-  | .path s => assignAux env sroot sref missing (orig.length + 1) st target orig (.path s)
+  | .vs v => assignAux env sroot sref missing (orig.length + 1) st target orig v
 
 /-- `glom(target, Assign(path, val, missing=missing))` for either kind of value -/
 def assignU (env : MEnv) (sroot : Bool) (sref : Val) (missing : Missing) (fuel : Nat) (h : Heap)
